@@ -81,6 +81,9 @@ def _ws_case(core, n, k):
     return ex, ctx, viol, reach_ok, reach_err, abnormal, panics, rids, s
 
 
+COUNTS = []
+
+
 def _http_case(http, n, k):
     """HttpClient::batch_request resumed after the reply arrived: a batch of n (ids s..s+n) answered by k responses with arbitrary u64 ids"""
     import re
@@ -124,6 +127,7 @@ def _http_case(http, n, k):
         e.write(kk, rng)
         stn.kids[(f"variant#{state}", fidx)] = kk
     paths = ex.run(b, pre=pre, pc0=[z3.ULE(s, (1 << 64) - 1 - n)])
+    del COUNTS[:]
     viol_len, viol_pos, reach_ok, reach_err, bad = [], [], [], [], []
     for p in paths:
         if p.kind in ("unsupported", "limit", "unwound"):
@@ -150,6 +154,21 @@ def _http_case(http, n, k):
             for j in range(k):
                 if re.search(rf"(reply{j}|\.el{j})\b", txt):
                     viol_pos.append(z3.And(pc, rids[j] != s + i))
+        # the counts handed to BatchResponse::new describe these very entries
+        succ, fail = news[0].args[0], news[0].args[2]
+        n_ok = z3.BitVecVal(0, 64)
+        known = True
+        for el in es:
+            v = ex.read_node(el)
+            d = ex.discr_of(v) if isinstance(v, Node) else None
+            if d is None:
+                known = False
+                break
+            n_ok = n_ok + z3.If(d == 0, z3.BitVecVal(1, 64), z3.BitVecVal(0, 64))
+        if known and isinstance(succ, z3.BitVecRef) and isinstance(fail, z3.BitVecRef):
+            COUNTS.append(z3.And(pc, z3.Or(succ != n_ok, fail != z3.BitVecVal(n, 64) - n_ok)))
+        else:
+            COUNTS.append(pc)
     return b, ctx, viol_len, viol_pos, reach_ok, reach_err, bad, rids, s
 
 
@@ -246,6 +265,17 @@ def _ws_front_case(core, k):
             txt = _deep_str(ex, el)
             if f"backend_elem{i}" not in txt or any(f"backend_elem{j}" in txt for j in range(k) if j != i):
                 viol.append(pc)
+        # the success / failure counts describe these very entries
+        sc = ex.read_node(br.kids[("name", "successful_calls")]) if ("name", "successful_calls") in br.kids else None
+        fc = ex.read_node(br.kids[("name", "failed_calls")]) if ("name", "failed_calls") in br.kids else None
+        n_ok = z3.BitVecVal(0, 64)
+        for el in LM.elems(vec):
+            v = ex.read_node(el)
+            n_ok = n_ok + (z3.If(ex.discr_of(v) == 0, z3.BitVecVal(1, 64), z3.BitVecVal(0, 64)) if isinstance(v, Node) else z3.BitVecVal(0, 64))
+        if isinstance(sc, z3.BitVecRef) and isinstance(fc, z3.BitVecRef):
+            viol.append(z3.And(pc, z3.Or(sc != n_ok, fc != z3.BitVecVal(k, 64) - n_ok)))
+        else:
+            viol.append(pc)
     return b, ctx, viol, reach_ok, reach_err, bad
 
 
@@ -268,7 +298,7 @@ def ws_front_obligations(core, ks):
         q = [v if isinstance(v, z3.ExprRef) else z3.BoolVal(bool(v)) for v in viol]
         out.append(R.decide(name, "kernel", z3.Or(*q) if q else z3.BoolVal(False), [z3.Or(*reach_ok)] + ([z3.Or(*reach_err)] if reach_err else []), bodies=[b.name],
                             desc=f"the async client hands its caller exactly the {k} entries the back end delivered, in that order, entry i decoded from element i (the back end made them positional: "
-                                 "process_batch_response); the call fails as a whole only when a successful entry does not decode",
+                                 "process_batch_response); its success / failure counts are the numbers of Ok / Err entries of that list; the call fails as a whole only when a successful entry does not decode",
                             bounds=f"{k} entries, each success / error object, each decodable or not", keydetail="ws-front-order",
                             replay=dict(scenario="c12_ws_batch_order", vars={}, fixed={"pre": 9, "n": 3}, region=z3.BoolVal(True))))
     return out
@@ -322,6 +352,14 @@ def obligations(tier, seed):
         out.append(r)
         args = {"start": s}
         args.update({f"r{j}": rids[j] for j in range(k)})
+        viol_counts = list(COUNTS)
+        rc_ = R.decide(name + ":counts-match-entries", "kernel", z3.Or(*viol_counts) if viol_counts else z3.BoolVal(False), reach,
+                       desc="HTTP client: the success / failure counts of a completed batch are the numbers of Ok / Err entries of the very list it returns (an entry left unanswered is a failed one)",
+                       bounds=f"n={n}, {k} reply ids any u64, each a success or an error", keydetail="http-counts",
+                       replay=dict(scenario="c12_http_batch", vars=args, fixed={"n": n, "k": k}, region=z3.And(z3.UGE(s, 100), z3.ULE(s, 1000), *[z3.ULE((r_ - s) + 16, 32) for r_ in rids])), **common)
+        if rc_["status"] == "violated":
+            rc_["key"] = "mirsym:c12:http:counts-do-not-match-entries"
+        out.append(rc_)
         out.append(R.decide(name + ":positional", "kernel", z3.Or(*viol_pos) if viol_pos else z3.BoolVal(False), reach,
                             desc="HTTP client: an entry of the result is only ever filled with the response whose id is start + its position",
                             bounds=f"n={n}, {k} reply ids any u64", keydetail="http-positional",
